@@ -49,7 +49,7 @@ ASSUMPTIONS = [
     "semantics (sim/procstate.py); other module-level state is shared between simulated processes",
     "the 'fresh' reference is the same library on a cache stripped of trees and binning files",
 ]
-PROBES = ["rebuild_same_nbins", "closed_side_switch", "binned_to_unbinned", "unbinned_to_binned", "forced_rebuild", "measure_after_foreign_build", "reopen", "op_under_parallel_schedule", "second_handle_used", "identities_recycled"]
+PROBES = ["rebuild_same_nbins", "closed_side_switch", "binned_to_unbinned", "unbinned_to_binned", "forced_rebuild", "measure_after_foreign_build", "reopen", "op_under_parallel_schedule", "second_handle_used", "identities_recycled", "build_interrupted_by_io_error"]
 REAL_VS_STUB = dict(
     real="all of yaw, pickle, tmpfs; references and the on-disk invariant run in real, pristine processes (children of a zygote forked before the session)",
     stub="multiprocessing (sim.fakemp) and per-process memo caches (sim.procstate) for ops with workers > 1; builtins.id (sim.identity)",
@@ -115,7 +115,7 @@ def shrinks(case: dict):
             yield ["build", op[1], op[2], False, *op[4:]]
         if op[0] == "cross" and op[2] != 2:
             yield ["cross", op[1], 2, *op[3:]]
-        nargs = dict(build=5, cross=4, auto=4, hist=4, reopen=3)[op[0]]
+        nargs = dict(build=5, cross=4, auto=4, hist=4, reopen=3, ibuild=3)[op[0]]
         core, handle = list(op[: 1 + nargs]), (op[1 + nargs] if len(op) > 1 + nargs else 0)
         if core[-2] > 1:
             yield [*core[:-2], 1, 0, handle]  # sequential instead of parallel
@@ -321,7 +321,7 @@ class Model:
     def apply(self, op: list) -> None:
         self.ops.append(list(op))
         self.outcomes.append("started")
-        nargs = dict(build=5, cross=4, auto=4, hist=4, reopen=3)[op[0]]
+        nargs = dict(build=5, cross=4, auto=4, hist=4, reopen=3, ibuild=3)[op[0]]
         handle = op[1 + nargs] if len(op) > 1 + nargs else 0
         self.cats = self.handles[handle]
         if handle:
@@ -397,6 +397,41 @@ class Model:
             return
         self._note_transition(name, None if b is None else (list(b[0]), b[1]))
 
+    def op_ibuild(self, name: str, pool_idx, k: int) -> None:
+        """A sequential build that is interrupted: its k-th mutating file operation fails with EIO
+        and the exception reaches the caller (a full disk, a lost mount, Ctrl-C have the same shape).
+        Some patches are rebuilt, some are not; everything afterwards must still equal fresh caches."""
+        import errno
+
+        from sim import fakemp
+        from sim.core import Sim
+
+        cat = self.cats[name]
+        b = None if pool_idx is None else POOL[pool_idx]
+
+        def fn():
+            if b is None:
+                cat.build_trees(None, max_workers=1)
+            else:
+                cat.build_trees(b[0], closed=b[1], max_workers=1)
+
+        sim = Sim(0, fs_root=self.root, cores=1, step_cap=150_000)
+        sim.faults["fs_errno"] = (int(k), errno.EIO, "EIO", False)
+        try:
+            with fakemp.patched(sim):
+                sim.run(fn)
+            fired = bool(sim.faults.get("_fired", {}).get("EIO"))
+            exc = sim.main.exc
+        finally:
+            sim.cleanup()
+        if fired:
+            self.rec.probe("build_interrupted_by_io_error")
+        if exc is not None:
+            self.last_binning[name] = "none"
+            self.outcomes[-1] = f"build-interrupted:{type(exc).__name__}"
+            return
+        self._note_transition(name, None if b is None else (list(b[0]), b[1]))
+
     def _measure(self, label: str, key: tuple, workers: int = 1, seed: int = 0) -> None:
         fn = measure_fn(self.case, key)
         status, ref = self._fresh(key)
@@ -468,11 +503,14 @@ class Model:
 def draw_op(prng) -> list:
     """One rule application drawn from the harness PRNG (same distributions as the
     Hypothesis machine below)."""
-    rule = prng.choice(["build", "cross", "auto", "hist", "reopen"])
+    rule = prng.choice(["build", "cross", "auto", "hist", "reopen", "ibuild"])
     w = prng.choice([1, 1, 1, 2, 3])
     seed = prng.below(1 << 16) if w > 1 else 0
     h = prng.choice([0, 0, 1])
     npool = len(POOL)
+    if rule == "ibuild":
+        b = None if prng.chance(1, 5) else prng.below(npool)
+        return ["ibuild", prng.choice(list(scenes.CATS)), b, prng.randint(1, 14), h]
     if rule == "build":
         b = None if prng.chance(1, 4) else prng.below(npool)
         return ["build", prng.choice(list(scenes.CATS)), b, prng.choice([False, False, False, True]), w, seed, h]
@@ -523,6 +561,10 @@ def _machine_factory(case: dict, tpl: str, root: str, fresh: dict, rec: Recorder
         @rule(name=names, b=pool, w=nworkers, s=seeds, h=handles)
         def hist(self, name, b, w, s, h):
             self._do(["hist", name, b, w, s if w > 1 else 0, h])
+
+        @rule(name=names, b=st.one_of(st.none(), st.integers(0, len(POOL) - 1)), k=st.integers(1, 14), h=handles)
+        def ibuild(self, name, b, k, h):
+            self._do(["ibuild", name, b, k, h])
 
         @rule(name=names, w=nworkers, s=seeds, h=handles)
         def reopen(self, name, w, s, h):
